@@ -385,7 +385,9 @@ class CPCCARotator(CPCCA):
                 projections1 = projections1 * self.data["norm1"]
 
             # Unstack the projections
-            projections1 = self.preprocessor1.inverse_transform_scores(projections1)
+            projections1 = self.preprocessor1.inverse_transform_scores_unseen(
+                projections1
+            )
 
             results.append(projections1)
 
@@ -417,7 +419,9 @@ class CPCCARotator(CPCCA):
                 projections2 = projections2 * self.data["norm2"]
 
             # Unstack the projections
-            projections2 = self.preprocessor2.inverse_transform_scores(projections2)
+            projections2 = self.preprocessor2.inverse_transform_scores_unseen(
+                projections2
+            )
 
             results.append(projections2)
 
